@@ -141,6 +141,19 @@ var protoPool = []string{"chat", "Chat", "CHAT", "superchat", "v1.proto", "x", "
 var extNames = []string{"permessage-deflate", "x-webkit-deflate-frame", "foo", "bar-ext"}
 var bufSizesHS = []int{0, 16, 17, 32, 64, 128, 4096}
 
+// drawBufHS draws an I/O buffer size; now and then one that holds any header
+// line whole.
+func drawBufHS(r *eng.Run) int {
+	k := r.T.Int(sim.LSize, len(bufSizesHS)+1)
+	if k == len(bufSizesHS) {
+		if r.T.Chance(sim.LSize, 1, 3) {
+			return 131072
+		}
+		return 4096
+	}
+	return bufSizesHS[k]
+}
+
 func drawParams(r *eng.Run, flate bool) [][2]string {
 	var ps [][2]string
 	n := r.T.Int(sim.LCfg, 4)
@@ -187,15 +200,21 @@ func drawHS(r *eng.Run) (hsClient, hsServer) {
 	case 1:
 		c.Header = "X-Custom: value\r\n"
 	case 2:
-		c.Header = "Cookie: " + strings.Repeat("k=v; ", 5+r.T.Int(sim.LLen, 1200)) + "\r\nX-Other: 1\r\n"
+		n := 5 + r.T.Int(sim.LLen, 1200)
+		if r.T.Chance(sim.LLen, 1, 24) {
+			// A line of 16..80 KB: longer than any configured buffer but one.
+			n = 3300 + r.T.Int(sim.LLen, 13000)
+			r.Probe("request_line_of_tens_of_kilobytes")
+		}
+		c.Header = "Cookie: " + strings.Repeat("k=v; ", n) + "\r\nX-Other: 1\r\n"
 	case 3:
 		c.Header = "X-Long: " + strings.Repeat("z", []int{10, 15, 16, 17, 31, 32, 33, 63, 64, 65, 4090, 4096, 4100}[r.T.Int(sim.LLen, 13)]) + "\r\n"
 	}
 	if r.T.Chance(sim.LCfg, 1, 4) {
 		c.Host = "override.example:8080"
 	}
-	c.RBuf = bufSizesHS[r.T.Int(sim.LSize, len(bufSizesHS))]
-	c.WBuf = bufSizesHS[r.T.Int(sim.LSize, len(bufSizesHS))]
+	c.RBuf = drawBufHS(r)
+	c.WBuf = drawBufHS(r)
 	c.StatusCb = r.T.Chance(sim.LCfg, 1, 3)
 	c.URL = []string{"ws://example.com/", "ws://example.com:8080/chat?x=1&y=2", "ws://[::1]:9000/p/a/t/h", "ws://h/" + strings.Repeat("seg/", 20)}[r.T.Int(sim.LCfg, 4)]
 	if r.T.Chance(sim.LEntry, 1, 3) {
@@ -228,7 +247,12 @@ func drawHS(r *eng.Run) (hsClient, hsServer) {
 	case 1:
 		s.Header = "X-Server: sim\r\n"
 	case 2:
-		s.Header = "Set-Cookie: " + strings.Repeat("s", 10+r.T.Int(sim.LLen, 600)) + "\r\n"
+		n := 10 + r.T.Int(sim.LLen, 600)
+		if r.T.Chance(sim.LLen, 1, 16) {
+			n = 16000 + r.T.Int(sim.LLen, 60000)
+			r.Probe("response_line_of_tens_of_kilobytes")
+		}
+		s.Header = "Set-Cookie: " + strings.Repeat("s", n) + "\r\n"
 	}
 	if s.Kind != 1 && r.T.Chance(sim.LFault, 1, 6) {
 		s.Reject = 1 + r.T.Int(sim.LFault, 4)
@@ -238,8 +262,8 @@ func drawHS(r *eng.Run) (hsClient, hsServer) {
 	if s.Kind != 1 && s.Reject == 0 && r.T.Chance(sim.LCfg, 1, 4) {
 		s.BeforeHeader = "X-Before: upgrade\r\n"
 	}
-	s.RBuf = bufSizesHS[r.T.Int(sim.LSize, len(bufSizesHS))]
-	s.WBuf = bufSizesHS[r.T.Int(sim.LSize, len(bufSizesHS))]
+	s.RBuf = drawBufHS(r)
+	s.WBuf = drawBufHS(r)
 	if r.T.Chance(sim.LCfg, 1, 3) {
 		// Frames right behind the 101.
 		n := 1 + r.T.Int(sim.LLen, 300)
